@@ -264,7 +264,16 @@ func runPull(t *testing.T, tape *verifsim.Tape, prop, tier string, keepLog bool)
 		// interrupts, and the only faults are flipped bytes and ignored ranges - so that a
 		// digest that was verified, pruned and is downloaded again arrives damaged. Aims at
 		// verification state that outlives the file it was computed for.
-		redownload := d("arm-redownload", 12) == 0
+		// shared-layer arm: model 0 is pulled, then its tag is updated at the registry while
+		// model 1, which shares a layer with the version of model 0 that is in the store, is
+		// pulled for the first time - concurrently with the pull of the update. Aims at the
+		// pruning of replaced layers racing a pull that found one of them present.
+		sharedArm := d("arm-shared-update", 12) == 0
+		redownload := !sharedArm && d("arm-redownload", 12) == 0
+		if sharedArm {
+			cfg.nModels, cfg.concurrent, cfg.cancelRate, cfg.updateTag = 2, true, 0, true
+			cfg.phases = 2 + d("phases-sh", 2)
+		}
 		if redownload {
 			cfg.nModels, cfg.concurrent, cfg.cancelRate, cfg.updateTag = 1, false, 0, true
 			cfg.phases = 3 + d("phases-rd", 4)
@@ -273,6 +282,10 @@ func runPull(t *testing.T, tape *verifsim.Tape, prop, tier string, keepLog bool)
 		w.concurrentPulls = cfg.concurrent
 		w.reg.needAuth = cfg.needAuth
 		w.reg.plan = drawFaultPlan()
+		if sharedArm {
+			w.reg.plan = &faultPlan{}
+			verifsim.Probe("arm_shared_update")
+		}
 		if redownload {
 			w.reg.plan = &faultPlan{enabled: map[string]bool{fFlip: true, fRangeIgnored: d("rd-range", 2) == 0}, rate: 2 + d("rd-rate", 3), budget: 4 + d("rd-budget", 8)}
 			verifsim.Probe("arm_redownload")
@@ -306,10 +319,20 @@ func runPull(t *testing.T, tape *verifsim.Tape, prop, tier string, keepLog bool)
 			specs = append(specs, mkModel(i, "latest"))
 		}
 
+		if sharedArm && len(specs) == 2 && len(specs[0].layers) > 0 {
+			// model 1 = the first layer of model 0 plus one of its own
+			seed++
+			own := pseudoBytes(1+d("own-size", 4000), seed)
+			seed++
+			specs[1] = w.publish("lib/m1:latest", [][]byte{specs[0].layers[0], own}, []byte(fmt.Sprintf(`{"model_format":"gguf","n":%d}`, seed)))
+		}
 		stepBudget := 150000
 		for ph := 0; ph < cfg.phases; ph++ {
-			if cfg.updateTag && ph > 0 && (redownload || d("update-now", 2) == 0) {
+			if cfg.updateTag && ph > 0 && (redownload || sharedArm || d("update-now", 2) == 0) {
 				i := d("update-which", len(specs))
+				if sharedArm {
+					i = 0
+				}
 				old := specs[i]
 				if old.prev != nil && (d("rollback", 3) == 0 || (redownload && ph%2 == 0)) {
 					// the tag is rolled back to the version published before
@@ -333,8 +356,14 @@ func runPull(t *testing.T, tape *verifsim.Tape, prop, tier string, keepLog bool)
 			if cfg.concurrent {
 				n = 2
 			}
+			if sharedArm && ph == 0 {
+				n = 1
+			}
 			for k := 0; k < n; k++ {
 				a := &pullAttempt{spec: specs[d("pull-which", len(specs))]}
+				if sharedArm {
+					a.spec = specs[k] // phase 0: model 0 alone; later: the update of model 0 and model 1
+				}
 				a.ctx, a.cancel = context.WithCancel(context.Background())
 				atts = append(atts, a)
 				stream := d("stream", 3) != 0
